@@ -234,6 +234,9 @@ def auto_discharge(prog, site):
             return ("D3", g)
         return None
     if site.kind == "index":
+        e = site.expr
+        if e is not None and e[0] == "field" and e[2] == "1" and e[1][0] == "elem" and e[1][1][0] == "call" and e[1][1][1].endswith("Iterator::enumerate"):
+            return ("D3", "v[i] with i ranging over 0..v.len() of the same unmodified sequence")
         g = _guarded_index(b, site) or _forced_index(b, site)
         if g:
             return ("D3", g)
